@@ -4,6 +4,8 @@
 import GoldilocksVerif.Model.Inv
 import GoldilocksVerif.Lemmas.Prime
 set_option linter.unusedSimpArgs false
+set_option linter.unusedTactic false
+set_option linter.unreachableTactic false
 namespace GoldilocksVerif
 open Gen.Scalar Model
 
@@ -77,18 +79,21 @@ theorem invLoop_spec (a : F) : ∀ (k : Nat) (t r newt newr : BitVec 64) (hn : n
         exact Nat.mod_lt _ (by decide)
       · exact key.2 hz
 
+/-- the out-parameter overload of `toU64` (same text as the value-returning one) -/
+theorem toU64_e_toNat (x : BitVec 64) : (toU64__eE x).toNat = x.toNat % P := Model.toU64_r_toNat x
+
+/-- `Goldilocks::equal` compares the canonical representatives.  Independent of how the generated text names / orders the two
+    canonical values and of the orientation of the `==`: both sides are moved to `Nat` and compared up to symmetry. -/
+theorem equal_iff_mod (a b : BitVec 64) : equal a b = true ↔ a.toNat % P = b.toNat % P := by
+  unfold equal
+  -- (`simp` closes the goal itself when the two sides come out in the same orientation)
+  simp only [beq_iff_eq, ← BitVec.toNat_inj, Model.toU64_r_toNat, toU64_e_toNat] <;> first | exact Iff.rfl | exact eq_comm
+
 theorem isZero_iff (a : BitVec 64) : isZero a = true ↔ a.toNat % P = 0 := by
-  unfold isZero equal
-  simp only [beq_iff_eq]
-  constructor
-  · intro h
-    have := congrArg BitVec.toNat h
-    rw [Model.toU64_r_toNat, Model.toU64_r_toNat] at this
-    simpa [zero__r, c_ZERO] using this
-  · intro h
-    apply BitVec.eq_of_toNat_eq
-    rw [Model.toU64_r_toNat, Model.toU64_r_toNat, h]
-    simp [zero__r, c_ZERO]
+  unfold isZero
+  rw [equal_iff_mod]
+  have : (zero__r).toNat % P = 0 := by decide
+  rw [this]
 
 /-- inv: refusal exactly on the zero class; otherwise a canonical inverse -/
 theorem inv_spec (a : BitVec 64) :
